@@ -19,9 +19,7 @@ EXTRA = [("npc", 32, "input"), ("usr", 32, "input"), ("cs", 32, "input")]
 
 # corpus-level findings that have no reference deviation rule: identified by instruction part
 # and by the shape of the disagreement
-INSN_FINDINGS = [
-    ("KF-nested-cond-stmtexpr-unguarded", {"S2_asr_r_r_sat#0"}, r"reg alias:usr: C leaves it unchanged, IL writes"),
-]
+INSN_FINDINGS = []
 
 
 class BehSpec(prog.ProgSpec):
@@ -98,7 +96,7 @@ def work(item):
     res["n_bad"] = len(bad)
     res["first_bad"] = {"state": dict(zip([s[0] for s in slots], bad[0][0])), "kind": bad[0][1], "detail": bad[0][2][:300]}
     cands = deviations.triggered(cp.cast, ops, cp)
-    if all(b[1] == "mismatch" for b in bad):
+    if all(b[1] == "mismatch" or b[2].startswith("horizon") for b in bad):
         expl = vcheck.explain_values(cp, slots, states, il_results, cands)
         if expl is not None:
             res["explained_by"] = sorted(expl)
